@@ -9,7 +9,7 @@ SPEC = {
     "level": "proof",
     "level_text": "full-strength statement (Complete: equal rule-hash pre-images imply equal values of every listed attribute) is "
                   "DISPROVED for the pinned code by kernel-checked witnesses (C08_violated, C08_witness_*: unframed writes, "
-                  "hashMap k=v, attributes never written: tools, named secrets; the names of named source groups are written since fix 3f4dc75: C08_partial_named_srcs). Proved instead, for the "
+                  "hashMap k=v, attributes never written: tools, named secrets; the names of named source groups are written since fix 3daf225: C08_partial_named_srcs). Proved instead, for the "
                   "schema regenerated from ruleHash on this run: C08_coverage (every other listed attribute is written exactly "
                   "once, unconditionally - dropping a field breaks it), C08_partial_{single,scalar,bool,list,list_edit,map,"
                   "command,file_content,sandbox,srcs} (one-attribute changes are always seen, up to equal concatenations for "
@@ -47,7 +47,7 @@ Dry-runs on a scratch copy (VERIF_REPO=/var/tmp/mC08 ./check C08 quick):
     thorough correspondence + failing input (two targets differing in a named source) -> exit 1.
  M10 drop `h.Write([]byte(os.Getenv(env)))` -> facts unreadable (pass_env idiom), failing input: same target under two callers with
     a different pass_env value, same rule hash -> exit 1.
- M11 (after fix 3f4dc75) revert to `for _, source := range target.AllSources()` -> see the commit message of the C08 follow-up.
+ M11 (after fix 3daf225) revert to `for _, source := range target.AllSources()` -> see the commit message of the C08 follow-up.
 A reordering of the writes inside ruleHash is *not* treated as harmless: it changes every rule hash (the pinned Go transcription
 used for classification no longer matches) and is reported as correspondence-broken.
 """
